@@ -356,6 +356,19 @@ impl Matcher {
                 }
             }
 
+            // Splits take effect after the day's trades, as in the main pass
+            for tx in &transactions[i..day_end] {
+                if let Some(ledger) = ledgers.get_mut(&tx.ticker) {
+                    match &tx.operation {
+                        Operation::Split { ratio } => ledger.rescale_quantities(*ratio),
+                        Operation::Unsplit { ratio } if *ratio != Decimal::ZERO => {
+                            ledger.rescale_quantities(Decimal::ONE / *ratio)
+                        }
+                        _ => {}
+                    }
+                }
+            }
+
             i = day_end;
         }
 
